@@ -220,4 +220,62 @@ def full (U : LS) : Expr → List LS
 /-- a source accounts for a label set: it can have every label of it -/
 def accounts (s : Src) (ls : LS) : Bool := ls.all (canHave s)
 
+/-! ### C12: which operands does the analyser declare "never matched"? -/
+
+/-- port of `canJoin` (after fix d2925e0): `on` = vm.On, `m` = vm.MatchingLabels -/
+def canJoin (on : Bool) (m : LS) (ls rs : Src) : Bool :=
+  if on then
+    if m.isEmpty then true
+    else m.all fun n => !(canHave ls n && !canHave rs n)
+  else
+    ls.guar.all fun n => m.contains n || !(canHave ls n && !canHave rs n)
+
+/-- the label names that take part in the matching -/
+def signature (on : Bool) (m : LS) (a : LS) : LS :=
+  if on then a.filter m.contains else a.filter fun n => !m.contains n && n != nameL
+
+/-- the flags one binary operation raises for the source `s` of its own side (the source as it leaves the operation,
+which is the one `parseBinOps` hands to `canJoin`): one per source of the other side that `canJoin` rejects, plus
+whatever was flagged inside that other source (`WalkSources` descends into `Joins` / `Unless`) -/
+def joinFlags (on : Bool) (m : LS) (s : Src) : List Src → List Nat → Nat
+  | r :: rs, c :: cs => (if canJoin on m s r then 0 else 1) + c + joinFlags on m s rs cs
+  | _, _ => 0
+
+/-- port of the `Joins` / `Unless` bookkeeping of `parseBinOps` as far as "never matched" verdicts go: for every
+source `analyse e` returns (same order), the number of sources `WalkSources` reaches from it that carry an `IsDead`
+set by `canJoin`.  `or` records no joins: verdicts about its right-hand branches are dropped, and those branches
+are returned as sources of their own. -/
+def neverMatched : Expr → List Nat
+  | .sel _ => [0]
+  | .aggBy _ e => neverMatched e
+  | .aggWithout _ e => neverMatched e
+  | .topk e => neverMatched e
+  | .countValuesBy _ _ e => neverMatched e
+  | .func e => neverMatched e
+  | .labelReplace _ e => neverMatched e
+  | .absent _ => [0]
+  | .vec => [0]
+  | .binOn m l r =>
+      List.zipWith (fun s c => c + joinFlags true m s (analyse r) (neverMatched r)) (analyse (.binOn m l r)) (neverMatched l)
+  | .binIgn m l r =>
+      List.zipWith (fun s c => c + joinFlags false m s (analyse r) (neverMatched r)) (analyse (.binIgn m l r)) (neverMatched l)
+  | .groupLeft on m incl l r =>
+      List.zipWith (fun s c => c + joinFlags on m s (analyse r) (neverMatched r)) (analyse (.groupLeft on m incl l r)) (neverMatched l)
+  | .groupRight on m incl l r =>
+      List.zipWith (fun s c => c + joinFlags on m s (analyse l) (neverMatched l)) (analyse (.groupRight on m incl l r)) (neverMatched r)
+  | .setAnd on m l r =>
+      List.zipWith (fun s c => c + joinFlags on m s (analyse r) (neverMatched r)) (analyse (.setAnd on m l r)) (neverMatched l)
+  | .setOr _ _ l r => neverMatched l ++ neverMatched r
+  | .withScalar e => neverMatched e
+
+/-- two series can only be matched if their matching signatures name the same labels -/
+def sigEq (on : Bool) (m : LS) (a b : LS) : Bool :=
+  (signature on m a).all (signature on m b).contains && (signature on m b).all (signature on m a).contains
+
+/-- the left series of a one-to-one / `and` operation that find a partner, judged on label names, when every stored
+series carries every label of `U`: an over-approximation of what the operation returns (values are ignored), so
+`joined … = []` means the operation returns no series -/
+def joined (U : LS) (on : Bool) (m : LS) (l r : Expr) : List LS :=
+  (full U l).filter fun a => (possible U r).any fun b => sigEq on m a b
+
 end Pint.LabelFlow
